@@ -1869,6 +1869,33 @@ func raceScenario(which string) {
 				os.Exit(67)
 			}
 		}
+		// a cleanup registered from another goroutine while the cleanups are already running (a worker that is told to stop by
+		// one cleanup registers its own on the way out): every registered cleanup runs exactly once
+		{
+			var n1, n2, n3, invs int64
+			fl := baseFlags()
+			fl.Checks = 40
+			fl.Seed = 21
+			withFlags(fl, func() {
+				runTB(func() {
+					rapid.VerifCheckTB(newRecTB("late-cleanup"), farDeadline(), func(t *rapid.T) {
+						atomic.AddInt64(&invs, 1)
+						stop, done := make(chan struct{}), make(chan struct{})
+						go func() {
+							<-stop
+							t.Cleanup(func() { atomic.AddInt64(&n3, 1) })
+							close(done)
+						}()
+						t.Cleanup(func() { atomic.AddInt64(&n1, 1) })
+						t.Cleanup(func() { atomic.AddInt64(&n2, 1); close(stop); <-done })
+					})
+				})
+			})
+			if n1 != invs || n2 != invs || n3 != invs {
+				fmt.Printf("LOST: %d invocations each registered a cleanup, then one that lets a goroutine register a third while the cleanups run: they ran %d, %d and %d times\n", invs, n1, n2, n3)
+				os.Exit(67)
+			}
+		}
 		// all goroutines observe one and the same context, also when their first calls overlap
 		{
 			gtb := &gateTB{recTB: newRecTB("gate"), both: make(chan struct{})}
